@@ -11,7 +11,7 @@ PLACEABLE = [("small-lamp", 1, 1), ("inserter", 1, 1), ("transport-belt", 1, 1),
              ("power-switch", 2, 2), ("wooden-chest", 1, 1)]
 
 
-def mixed_program(rng: random.Random, size="small", far=False, prefix=""):
+def mixed_program(rng: random.Random, size="small", far=False, prefix="", counters=True):
     """A program with computations, memory cells, latches and user-placed entities.
 
     size: small (~5-25 entities), medium (~30-90), large (~100-400)."""
@@ -51,7 +51,7 @@ def mixed_program(rng: random.Random, size="small", far=False, prefix=""):
         mt = types.fresh()
         mn = "%sm%d" % (P, m)
         prog.append(["mem", mn, mt])
-        kind = rng.choice(["when", "latch_sr", "latch_rs", "counter"])
+        kind = rng.choice(["when", "latch_sr", "latch_rs", "counter"] if counters else ["when", "latch_sr", "latch_rs"])
         a, b = rng.choice(ins), rng.choice(ins)
         if kind == "when":
             prog.append(["write", mn, ["p", ["v", rng.choice(sigs)], mt], ["c", ">", ["v", a], ["n", rng.randint(0, 9)]]])
